@@ -30,11 +30,15 @@ func init() {
 		// forget=1: the proxy client writes and closes at once without waiting for an answer (a
 		// fire-and-forget request); what it wrote must still reach the proxy server
 		sc := &vrt.Scenario{
-			Opt:      vrt.Options{Delay: c.P("delay", "1") == "1", HorizonNs: int64(200+c.PI("rounds", 1)*c.PI("gap", 100)) * int64(time.Second), MemVars: true},
+			Opt:      vrt.Options{Delay: c.P("delay", "1") == "1", HorizonNs: int64(200+c.PI("rounds", 1)*c.PI("gap", 100)) * int64(time.Second), MemVars: true, MemPoints: c.P("mem", "0") == "1"},
 			Classify: deadlockIs("liveness: the tunnel stopped moving data on healthy connections"),
 			Main: func() {
 				uid := uidOf(0)
 				r := newE2ERig(newMemManager(), [][]byte{uid}, nil)
+				if n := c.PI("seg", 0); n > 0 {
+					// up to n reads of any byte stream (tunnel connections and local sockets) are cut short
+					r.net.SegChoice, r.net.SegBudget = true, n
+				}
 				r.serve(64)
 				total := 0
 				for _, s := range sizes {
